@@ -98,38 +98,92 @@ def loop_element(v):
     return None, None
 
 
+def walk_deep(sl, v, depth=0, _seen=None):
+    """like value.walk, but results of private workspace functions are looked into as well (lazy inlining)"""
+    for x in walk(v):
+        yield x
+        if x[0] == 'call' and depth < 4 and x[1] in sl.prog.fns and sl.prog.fns[x[1]].kind != 'Closure':
+            iv = sl.inline_call(x)
+            if iv is not None:
+                yield from walk_deep(sl, iv, depth + 1)
+
+
+def _entries_scope(f, v):
+    """which delta's `entries` does the value range over: 'all' | 'build' | 'launch' | 'process[*]' | None"""
+    for x in walk(v):
+        if x[0] == 'field' and x[2] == 'entries':
+            owner = strip(x[1])
+            fld = self_field(f, owner)
+            if fld is not None:
+                return fld, None
+            coll, proj = loop_element(owner)
+            if coll is not None and self_field(f, coll) is not None and proj == ('1',):
+                return self_field(f, coll) + '[*]', coll
+    return None, None
+
+
 def writer_scope_table(prog, sl):
-    """{scope: (components...)} from the per-scope writes in write_to_layer_dir, plus call list"""
+    """{scope: (directory components...)} of write_to_layer_dir, derived from its *effects*: every file WRITE below
+    the layer directory names the delta whose entries it ranges over (self.all / self.build / self.launch /
+    the values of self.process) and the directory it is created in.  Independent of how the per-scope writes are
+    spelled (three calls, a loop over a table of (dir, delta) pairs, iterator chains, helpers).
+    rows: (effect, scope | None, dir components | None, -, path value)"""
+    from .lib.effects import Effects
     resolve_roles(prog, sl)
     f = prog.fn(W_LAYER)
     root = param_pred(f, 1)
+    E = Effects(prog, sl)
     table = {}
-    calls = []
-    for c in f.calls:
-        if c.name != W_DIR:
+    rows = []
+    for e in E.expand(f, 'may'):
+        if e.kind != 'WRITE' or e.path is None:
             continue
-        delta = strip(sl.operand(f, c.args[0]))
-        pathv = sl.operand(f, c.args[1])
-        cs = comps(pathv, root)
-        fld = self_field(f, delta)
-        scope = None
-        if fld is not None:
-            scope = fld
-        else:
-            coll, proj = loop_element(delta)
-            if coll is not None and self_field(f, coll) is not None:
-                scope = self_field(f, coll) + '[*]'
-                # the directory component must be the key of the same element
-                if cs:
-                    last = cs[-1]
-                    if not isinstance(last, str):
-                        c2, p2 = loop_element(last)
-                        if c2 == coll and p2 == ('0',) and proj == ('1',):
-                            cs = cs[:-1] + ('<key>',)
-        calls.append((c, scope, cs, delta, pathv))
-        if scope is not None:
-            table[scope] = cs
-    return f, table, calls
+        cs = comps(e.path, root)
+        scope, coll = _entries_scope(f, e.path)
+        if scope is None and e.args:
+            for a in e.args[1:]:
+                scope, coll = _entries_scope(f, a)
+                if scope is not None:
+                    break
+        dirs = None
+        if cs is not None and len(cs) >= 1:
+            dirs = cs[:-1]
+            if coll is not None and dirs:
+                last = dirs[-1]
+                if not isinstance(last, str):
+                    c2, p2 = loop_element(last)
+                    if c2 == coll and p2 == ('0',):
+                        dirs = dirs[:-1] + ('<key>',)
+        rows.append((e, scope, dirs, None, e.path))
+        if scope is not None and dirs is not None and all(isinstance(d, str) for d in dirs):
+            if scope in table and table[scope] != dirs:
+                table[scope] = None    # one scope persisted in two places
+            else:
+                table[scope] = dirs
+        elif scope is not None:
+            table.setdefault(scope, None)
+    return f, table, rows
+
+
+def writer_must_dirs(prog, sl):
+    """directories (component tuples below the layer dir, '<key>' for the process name) that the per-directory
+    writer is run on, on every successful write_to_layer_dir, in program order"""
+    from .lib.effects import Effects
+    resolve_roles(prog, sl)
+    f = prog.fn(W_LAYER)
+    root = param_pred(f, 1)
+    E = Effects(prog, sl)
+    out = []
+    for e in E.expand(f, 'must'):
+        if e.path is None or not any(c.name == W_DIR for c in e.chain):
+            continue
+        cs = comps(e.path, root)
+        if cs is None:
+            continue
+        cs = tuple(d if isinstance(d, str) else ('<key>' if loop_element(d)[0] is not None else '<?>') for d in cs)
+        if (cs, e.forall is not None) not in out:
+            out.append((cs, e.forall is not None))
+    return out
 
 
 def reader_scope_table(prog, sl):
@@ -140,7 +194,7 @@ def reader_scope_table(prog, sl):
     table = {}
     detail = {}
     fns = [g] + prog.closures_of(g)
-    # (a) field assignments  result.<scope> = read_from_env_dir(path)?
+    # (a) field assignments  result.<scope> = read_from_env_dir(path)?   (possibly through a private helper)
     for f in fns:
         for key, defs in f.defs().items():
             if not (isinstance(key, tuple) and key[1] == 'partial'):
@@ -159,10 +213,7 @@ def reader_scope_table(prog, sl):
                 fld = [p for p in pl[1:] if p != '*']
                 if len(fld) != 1:
                     continue
-                for x in walk(v):
-                    if x[0] == 'call' and x[1] == R_DIR:
-                        table[fld[0][1:]] = comps(x[2][0], root)
-                        detail[fld[0][1:]] = (f, d[1], x)
+                _scan_read(sl, f, d[1], v, fld[0][1:], root, table, detail)
         # (b) result.<map>.insert(key, read_from_env_dir(path)?)
         for c in f.calls:
             if c.indirect or not c.name or not c.name.endswith('::insert') or len(c.args) < 3:
@@ -171,69 +222,114 @@ def reader_scope_table(prog, sl):
             if recv[0] != 'field':
                 continue
             val = sl.operand(f, c.args[2])
-            for x in walk(val):
-                if x[0] == 'call' and x[1] == R_DIR:
-                    pv = strip(x[2][0])
-                    cs = comps(pv, root)
-                    if cs is None:
-                        # a directory entry listed from a scope directory
-                        from .lib.paths import _listed_from
-                        if pv[0] == 'call' and pv[1] == 'std::fs::DirEntry::path':
-                            src = _listed_from(pv[2][0])
-                            base = comps(src, root) if src is not None else None
-                            if base is not None:
-                                kv = sl.operand(f, c.args[1])
-                                key_ok = any(y[0] == 'call' and y[1] == 'std::path::Path::file_name' and strip(y[2][0]) == pv
-                                             for y in walk(kv))
-                                cs = base + ('<key>' if key_ok else '<not-the-directory-name>',)
-                    table[recv[2] + '[*]'] = cs
-                    detail[recv[2] + '[*]'] = (f, c.bb, x)
+            kv = sl.operand(f, c.args[1])
+            _scan_read(sl, f, c.bb, val, recv[2] + '[*]', root, table, detail, kv)
+    # (c) whole-struct construction / map built by an iterator pipeline: fields of the returned aggregate
+    rv = strip(sl.local(g, 0))
+    for x in walk(rv):
+        if x[0] == 'agg' and x[1] == LE:
+            for fname, fv in x[3]:
+                if fname not in table:
+                    _scan_read(sl, g, 0, fv, fname, root, table, detail)
     return g, table, detail
 
 
+def _scan_read(sl, f, bb, v, scope, root, table, detail, keyv=None):
+    from .lib import iters
+    from .lib.paths import _listed_from
+    for x in walk_deep(sl, v):
+        if not (x[0] == 'call' and x[1] == R_DIR):
+            continue
+        pv = strip(x[2][0])
+        cs = comps(pv, root)
+        sc = scope
+        if cs is None and pv[0] == 'call' and pv[1] == 'std::fs::DirEntry::path':
+            # a directory entry listed from a scope directory
+            src = _listed_from(pv[2][0])
+            base = comps(src, root) if src is not None else None
+            if base is not None:
+                kvs = [keyv] if keyv is not None else [y for y in walk(v) if y[0] == 'tuple']
+                key_ok = any(y[0] == 'call' and y[1] == 'std::path::Path::file_name' and strip(y[2][0]) == pv
+                             for k in kvs for y in walk(k))
+                cs = base + ('<key>' if key_ok else '<not-the-directory-name>',)
+                if not sc.endswith('[*]'):
+                    sc = sc + '[*]'
+        table[sc] = cs
+        detail[sc] = (f, bb, x)
+
+
+def string_parts(sl, v, depth=0):
+    """the pieces a string / file-name value is concatenated from, in order (or [v] if it is not a concatenation)"""
+    from .lib import iters
+    v = strip(v)
+    if depth > 4:
+        return [v]
+    if v[0] == 'concat':
+        from .lib.value import concat_parts
+        out = []
+        for x in concat_parts(v):
+            out.extend(string_parts(sl, x, depth + 1))
+        return out
+    if v[0] == 'call' and v[1] in iters.COLLECTING and v[2]:
+        al = iters.alts(sl, v[2][0])
+        if al and all(fa is None and not fl for _, fa, fl in al):
+            out = []
+            for e, _, _ in al:
+                out.extend(string_parts(sl, e, depth + 1))
+            return out
+    if v[0] == 'fmt':
+        return [p if isinstance(p, str) else strip(p) for p in v[1]]
+    return [v]
+
+
 def writer_suffix_table(prog, sl):
-    """{Variant: '.suffix'} from the match feeding OsString::push in write_to_env_dir.
-    info['name_parts']: the symbolic concatenation that forms the file name: base value + pushed values in
-    program order, each rendered as NAME (the map key's variable name), SUFFIX (the per-behaviour constant) or text"""
+    """{Variant: '.suffix'} of the files written by write_to_env_dir, read off the *value* of the file name of its
+    WRITE effect: a concatenation [variable name of the entry, select(behaviour of the same entry){variant => suffix}].
+    Independent of how the name is assembled (clone + push, collect, a helper function, a method on the enum).
+    info['name_parts']: the pieces rendered as NAME / SUFFIX / text."""
+    from .lib.effects import Effects
     resolve_roles(prog, sl)
     f = prog.fn(W_DIR)
     rows = {}
-    push = [c for c in f.calls if c.name == 'std::ffi::OsString::push']
-    info = {'push_calls': len(push)}
-    rpo = f._rpo()
-    push.sort(key=lambda c: rpo.index(c.bb) if c.bb in rpo else 10 ** 6)
-    parts = []
-    suffix_pushes = 0
-
-    def sym(v):
-        v = strip(v)
-        coll, proj = loop_element(v)
-        if coll is not None and self_field(f, coll) == 'entries' and proj == ('0', '1'):
-            return 'NAME'
-        if v[0] == 'call' and v[1] in ('std::ffi::OsString::new', 'std::ffi::OsString::with_capacity'):
-            return None
-        return vstr(v)[:50]
-    for c in push:
-        loc = phi_local_of(f, c.args[1])
-        if not parts:
-            base = sym(sl.operand(f, c.args[0]))
-            if base is not None:
-                parts.append(base)
-            info['receiver'] = op_place(c.args[0])
-        if loc is None:
-            parts.append(sym(sl.operand(f, c.args[1])))
+    info = {'push_calls': 0, 'suffix_pushes': 0, 'name_parts': []}
+    E = Effects(prog, sl)
+    root = param_pred(f, 1)
+    writes = [e for e in E.expand(f, 'may') if e.kind == 'WRITE' and e.path is not None]
+    info['writes'] = len(writes)
+    for e in writes:
+        cs = comps(sl.inline_deep(e.path), root)
+        if cs is None or len(cs) != 1:
+            info.setdefault('odd', []).append('file path is not <dir>/<name>: ' + vstr(e.path)[:80])
             continue
-        suffix_pushes += 1
-        parts.append('SUFFIX')
-        for bi, v, conds in arm_defs(f, loc, sl):
-            var = [cd for cd in conds if cd.kind == 'variant' and cd.enum == MB]
-            if var and v[0] == 'const' and len(var[-1].outcome) == 1:
-                rows[next(iter(var[-1].outcome))] = v[1]
+        fname = cs[0]
+        parts = string_parts(sl, fname) if not isinstance(fname, str) else [('const', fname)]
+        rendered = []
+        for x in parts:
+            coll, proj = loop_element(x)
+            if coll is not None and self_field(f, coll) == 'entries' and proj == ('0', '1'):
+                rendered.append('NAME')
+            elif x[0] == 'select' and x[2] == MB:
+                c2, p2 = loop_element(x[1])
+                if c2 is not None and self_field(f, c2) == 'entries' and p2 == ('0', '0'):
+                    rendered.append('SUFFIX')
+                    info['suffix_pushes'] += 1
+                    for names, val in x[3]:
+                        for n in names:
+                            if val[0] == 'const' and n not in rows:
+                                rows[n] = val[1]
+                            else:
+                                info.setdefault('odd', []).append((n, vstr(val)))
+                else:
+                    rendered.append('SUFFIX-OF-ANOTHER-ENTRY')
             else:
-                info.setdefault('odd', []).append((vstr(v), [repr(x) for x in var]))
-        info['push_call'] = c
-    info['name_parts'] = parts
-    info['suffix_pushes'] = suffix_pushes
+                rendered.append(vstr(x)[:50])
+        if not info['name_parts']:
+            info['name_parts'] = rendered
+            info['push_call'] = e.call
+        elif rendered != info['name_parts']:
+            info.setdefault('odd', []).append('file names built differently: %s / %s' % (info['name_parts'], rendered))
+    if info['suffix_pushes'] > 1 and len(writes) == info['suffix_pushes']:
+        info['suffix_pushes'] = 1     # cfg-alternative write calls sharing one name construction
     return f, rows, info
 
 
